@@ -356,6 +356,28 @@ def r8(ctx):
         ctx.inst(R, "connect-guard:tells-the-peer", sends, ctx.w.bodies[gd].span, "an abandoned connect that was already answered resets the peer's stream" if sends else
                  "ConnectGuard::drop only removes the local stream-table entry: when the listener has already fired the SYN-ACK (accept() returned an established stream) "
                  "and the connecting host then crashes or drops the future, the peer is never told - its read blocks for the rest of the run")
+    # (c) a dropped half takes the whole stream entry away (Tcp::reset_stream, which also silences the sibling half's FIN) only on
+    # a path on which it has sent the RST itself; every other path releases its own half (close_stream_half) so that the write
+    # half still finds the socket and sends the FIN
+    for adt in ("turmoil::net::tcp::stream::ReadHalf", "turmoil::net::tcp::stream::WriteHalf"):
+        hd = ctx.w.drop_impl(adt)
+        if not hd:
+            if ctx.strict:
+                ctx.bad(R, f"anchor-missing:{adt}::drop", "", f"Drop for {adt} not found")
+            continue
+        k = 0
+        for fb in ctx.w.family(hd):
+            rst_blocks = [bb for bb, t in fb.calls(re.compile(r"World::send_message$|tcp::stream::send_loopback$"))
+                          if any(re.search(r"Segment::Rst$|variant:Rst$|agg:turmoil::envelope::Segment::Rst", a) for a in Slicer(ctx.w).atoms(fb, t["args"][-1]))]
+            if not rst_blocks:
+                rst_def = [bb for bb, i, st in fb.all_stmts() if st["r"]["k"] == "agg" and st["r"].get("adt") == "turmoil::envelope::Segment" and st["r"].get("variant") == "Rst"]
+                rst_blocks = [bb for bb, t in fb.calls(re.compile(r"World::send_message$|tcp::stream::send_loopback$")) if rst_def and fb.dominated_by_any(bb, blocks=rst_def)]
+            for bb, t in fb.calls("turmoil::host::Tcp::reset_stream"):
+                ok = bool(rst_blocks) and fb.dominated_by_any(bb, blocks=rst_blocks)
+                ctx.inst(R, f"half-drop:{adt.rsplit('::', 1)[1]}:whole-entry-only-after-rst#{k}", ok, t["s"], "the stream entry is torn down only after the RST was sent" if ok else
+                         f"Drop for {adt.rsplit('::', 1)[1]} removes the whole stream entry (reset_stream) on a path that has not sent a RST: the sibling write half no longer finds the "
+                         "socket, sends no FIN, and a peer that half-closed and is waiting for the answer stays blocked in read after this host crashed")
+                k += 1
     rf = ctx.body(R, "turmoil::host::Tcp::receive_from_network")
     if rf:
         rst = [m["Rst"] for sbb, m, els, adt, pl in variant_edges(rf, lambda p: True) if adt == "turmoil::envelope::Segment" and "Rst" in m]
@@ -444,3 +466,5 @@ def run(ctx):
     C02.r7(ctx)   # R4: RST only for unread data
     C02.r4(ctx)   # the crashed sender's FIN fits the peer's receive queue
     C12.r4(ctx)   # a half-open connect is released when the crash drops its future
+    from . import C01
+    C01.r8(ctx)   # a scoped context (the entered Fs) is put back exactly as it was found: a guard that leaves the slot set hands the next host's destructors somebody else's filesystem
